@@ -83,6 +83,8 @@ def main():
          "engines": engines, "checks": checks, "not_applicable": na,
          "notes": "All checks rebuild /repo's working tree natively (make, incremental) before running. The pinned pytest suite imports the installed wheel and never executes the working tree."}
     json.dump(m, open(os.path.join(V, "MANIFEST.json"), "w"), indent=1)
+    modes = sorted({CHECKS[p][0].replace("hgv_", "") for p in CHECKS} | {"engine"})
+    open(os.path.join(V, "build_modes.txt"), "w").write("\n".join(modes) + "\n")
     print("MANIFEST: %d checks, %d not_applicable" % (len(checks), len(na)))
 
 
